@@ -35,6 +35,7 @@ def render_stmt(st, ind, cond="r == 0"):
     if k == 'cgoto': return "%sif %s\n%s\tgoto %s;\n" % (t, cond, t, st[1])
     if k == 'decl': return "%svar %s: i32 = 1;\n" % (t, st[1])
     if k == 'declu': return "%svar %s: i32 = %s;\n" % (t, st[1], st[2])
+    if k == 'raw': return "%s%s\n" % (t, st[1])          # any statement text (errors of other stages inside branches)
     if k == 'declarr':      # an array literal (empty, or of the given variables) opens a scope of its own in the scoper
         return "%svar %s: [%d]i32 = [%s];\n" % (t, st[1], len(st[2]), ", ".join(st[2]))
     if k == 'use': return "%sr = %s;\n" % (t, st[1])
